@@ -740,6 +740,26 @@ func (fr *Frame) tr(e ast.Expr, env *Env) Val {
 		if fn.Name == "concat" {
 			fn.Name = "sconcat"
 		}
+		if (fn.Name == "mtrue" || fn.Name == "mtrueseen") && len(x.Args) == 1 {
+			// mtrue(m): number of keys of the map[K]bool m that are present with the value true;
+			// mtrueseen(m): the same over the keys the enclosing map-range loop has visited so far
+			m := fr.tr(x.Args[0], env)
+			mt, ok := m.Typ.Underlying().(*types.Map)
+			if !ok || c.sortOf(mt.Elem()) != "Bool" {
+				panic("mtrue: argument must be a map with bool values")
+			}
+			_, _, dom, val := c.mapHeaps(env.st, mt)
+			d := fmt.Sprintf("(select %s %s)", dom, m.T)
+			if fn.Name == "mtrueseen" {
+				key := fr.loopIter[env.loopOrd]
+				arr, ok := env.st.heap[key]
+				if !ok {
+					panic("mtrueseen: no map iterator in this loop")
+				}
+				d = arr
+			}
+			return Val{fmt.Sprintf("(%s %s (select %s %s))", c.mtrueFn(mt), d, val, m.T), types.Typ[types.Int]}
+		}
 		if fn.Name == "trimleft" && len(x.Args) == 2 {
 			lit, ok := x.Args[1].(*ast.BasicLit)
 			if !ok {
